@@ -3,6 +3,7 @@ package props
 import (
 	"encoding/json"
 	"fmt"
+	"github.com/akrennmair/updog/zzverif/flk"
 	"os"
 	"strings"
 
@@ -256,8 +257,38 @@ func c14Worker(ctx *rt.Ctx, job *rt.Job) []*rt.Violation {
 			&updogv1.QueryRequest{Queries: []*updogv1.Query{{Expr: pOr(ops...), GroupBy: []string{"a"}}}},
 			&updogv1.QueryRequest{Queries: []*updogv1.Query{{Expr: pNot(pOr(pAnd(ops...), pEq("b", "1", 0)))}}})
 	}
+	// ladders: a deep chain in which every level has two operator operands
+	for _, d := range []int{8, 17, 24, 40, 100} {
+		e := pAnd(pNot(pEq("a", "x", 0)), pNot(pEq("b", "1", 0)))
+		for i := 0; i < d; i++ {
+			if i%2 == 0 {
+				e = pAnd(pOr(e, pEq("a", "y", 0)), pNot(pEq("b", "1", 0)))
+			} else {
+				e = pOr(pAnd(e), pNot(pOr(pEq("a", "x", 0), pEq("a", "nope", 0))))
+			}
+		}
+		special = append(special, &updogv1.QueryRequest{Queries: []*updogv1.Query{{Expr: e}}}, &updogv1.QueryRequest{Queries: []*updogv1.Query{{Expr: e, GroupBy: []string{"a"}}}})
+	}
+	// group-by lists that repeat a column 40 .. 65 times (the product of the value counts passes 2^63, 2^64), and a list
+	// of two columns followed by a list naming one unknown column that spells the same when joined with a comma
+	for _, n := range []int{31, 32, 33, 40, 41, 62, 63, 64, 65} {
+		for _, col := range []string{"a", "b"} {
+			var gb []string
+			for i := 0; i < n; i++ {
+				gb = append(gb, col)
+			}
+			special = append(special, &updogv1.QueryRequest{Queries: []*updogv1.Query{{Expr: pNot(pEq("a", "nope", 0)), GroupBy: gb}}})
+		}
+	}
+	special = append(special,
+		&updogv1.QueryRequest{Queries: []*updogv1.Query{{Expr: pEq("a", "x", 0), GroupBy: []string{"a", "b"}}}},
+		&updogv1.QueryRequest{Queries: []*updogv1.Query{{Expr: pEq("a", "x", 0), GroupBy: []string{"a,b"}}}},
+		&updogv1.QueryRequest{Queries: []*updogv1.Query{{Expr: pEq("a", "x", 0), GroupBy: []string{"a b"}}}},
+		&updogv1.QueryRequest{Queries: []*updogv1.Query{{Expr: pEq("a", "x", 0), GroupBy: []string{"b", "a"}}}})
 	nests := []c14Case{{Nest: 100, Inner: "eq"}, {Nest: 100, Inner: "unset"}, {Nest: 100, Inner: "absent"}, {Nest: 4990, Inner: "eq"}, {Nest: 4990, Inner: "unset"}}
 	if a.Mode == "inproc" {
+		flk.Sequential(true) // a request that blocks for good is a hang, decided by the state of all goroutines
+		defer flk.Sequential(false)
 		idx, err := ix.Open(p, false, updog.NewLRUCache(1<<20))
 		if err != nil {
 			rt.Harnessf("open: %v", err)
@@ -321,6 +352,9 @@ func c14Worker(ctx *rt.Ctx, job *rt.Job) []*rt.Violation {
 						c.Request = reqJSON(r)
 					}
 					report(c, "after the request the server is alive but "+m)
+					// a server that stopped answering would cost a time-out per request from here on: start a new one
+					srv.stop()
+					srv = startServer(p, cacheOn, preloadOn)
 					return
 				}
 			}
